@@ -368,6 +368,12 @@ def bures_case(draw):
     n1, n2 = draw(U.stack_sizes())
     p1 = [draw(U.point_cloud(n)) for _ in range(n1)]
     p2 = [draw(U.point_cloud(n)) for _ in range(n2)]
+    # point clouds measured in small or large units (exact power-of-two factor per stack):
+    # squared distances of 1e-12 and below are ordinary in SI units
+    f1 = 2.0 ** draw(st.sampled_from([0, 0, 0, -25, -40, 15]))
+    f2 = 2.0 ** draw(st.sampled_from([0, 0, 0, -25, -40, 15]))
+    p1 = [[[x * f1 for x in pt] for pt in cloud] for cloud in p1]
+    p2 = [[[x * f2 for x in pt] for pt in cloud] for cloud in p2]
     return dict(method=method, n_cond=n, kind='points', pts1=p1, pts2=p2,
                 v1=[U.sq_euclid_vector(p) for p in p1], v2=[U.sq_euclid_vector(p) for p in p2],
                 form1=forms_for(draw, n1), form2=forms_for(draw, n2),
